@@ -1,4 +1,159 @@
-import RecipeGrid.Model.Html
+import RecipeGrid.Props.C02
+import RecipeGrid.Lemmas.Html
+/-! C04 — the HTML table realises the abstract table: fed to the HTML table-forming algorithm, the emitted rows put
+    every cell back at its own position with its own extent (C04.1, C04.3), no row is empty (C04.2), and the classes
+    and span attributes of a cell are as specified (C04.4). Helper lemmas are in `Lemmas/Html.lean`. -/
 namespace RG.C04
-theorem placeholder_trivial : htmlEscape [] = [] := by decide
+
+-- ---------------------------------------------------------------- the specification: HTML's table model
+/-! The WHATWG "forming a table" algorithm restricted to `<td>` cells with `rowspan`/`colspan` ≥ 1.
+    A placed cell is `(row, col, rows, cols)`. -/
+
+/-- the placed cell `p` occupies the slot in row `r`, column `c` -/
+def occupies (p : Nat × Nat × Nat × Nat) (r c : Nat) : Bool :=
+  p.1 ≤ r && r < p.1 + p.2.2.1 && p.2.1 ≤ c && c < p.2.1 + p.2.2.2
+/-- the slot already has a cell assigned to it (possibly one hanging down from an earlier row) -/
+def occupied (ps : List (Nat × Nat × Nat × Nat)) (r c : Nat) : Bool := ps.any (occupies · r c)
+/-- the width of the table so far: the right-most occupied column + 1 -/
+def width (ps : List (Nat × Nat × Nat × Nat)) : Nat := ps.foldr (fun p w => max (p.2.1 + p.2.2.2) w) 0
+/-- "while x < width and the slot (x, y) already has a cell assigned to it, increase x by 1";
+    the first argument bounds the number of iterations (`width - x`) -/
+def skip (ps : List (Nat × Nat × Nat × Nat)) (r : Nat) : Nat → Nat → Nat
+  | 0, c => c
+  | n + 1, c => if occupied ps r c then skip ps r n (c + 1) else c
+/-- process the cells `(rowspan, colspan)` of one `<tr>`, in source order, starting with the cursor at `cur`:
+    advance to the first free slot, put the cell there, move the cursor right by its colspan -/
+def placeRow (r : Nat) : List (Nat × Nat) → Nat → List (Nat × Nat × Nat × Nat) → List (Nat × Nat × Nat × Nat)
+  | [], _, ps => ps
+  | (rs, cs) :: rest, cur, ps =>
+    let c := skip ps r (width ps - cur) cur
+    placeRow r rest (c + cs) (ps ++ [(r, c, rs, cs)])
+/-- process the `<tr>`s top to bottom, the cursor starting at column 0 in each -/
+def placeRows : Nat → List (List (Nat × Nat)) → List (Nat × Nat × Nat × Nat) → List (Nat × Nat × Nat × Nat)
+  | _, [], ps => ps
+  | r, row :: rows, ps => placeRows (r + 1) rows (placeRow r row 0 ps)
+/-- per row the (rowspan, colspan) of its cells in source order ↦ per cell (row, col, rows, cols), in source order -/
+def place (rows : List (List (Nat × Nat))) : List (Nat × Nat × Nat × Nat) := placeRows 0 rows []
+
+example : place [[(2, 1), (1, 1)], [(1, 1)]] = [(0, 0, 2, 1), (0, 1, 1, 1), (1, 1, 1, 1)] := by decide
+example : place [[(1, 1), (3, 1)], [(1, 1)], [(1, 1)]] = [(0, 0, 1, 1), (0, 1, 3, 1), (1, 0, 1, 1), (2, 0, 1, 1)] := by
+  decide
+/-- a cell hanging down in the middle of a row is skipped over -/
+example : place [[(1, 1), (2, 1), (1, 1)], [(1, 1), (1, 1)]] =
+    [(0, 0, 1, 1), (0, 1, 2, 1), (0, 2, 1, 1), (1, 0, 1, 1), (1, 2, 1, 1)] := by decide
+/-- rows that do not tile: HTML leaves holes / lets rows stick out, it never overlaps on its own -/
+example : place [[(1, 2)], [(1, 1), (1, 1), (1, 1)]] = [(0, 0, 1, 2), (1, 0, 1, 1), (1, 1, 1, 1), (1, 2, 1, 1)] := by
+  decide
+
+private theorem occupied_eq : @occupied = @Place.occupied := rfl
+private theorem width_eq : @width = @Place.width := rfl
+private theorem skip_eq (ps : List (Nat × Nat × Nat × Nat)) (r n c : Nat) : skip ps r n c = Place.skip ps r n c := by
+  induction n generalizing c with
+  | zero => rfl
+  | succ n ih => simp only [skip, Place.skip, ih, occupied_eq]
+private theorem placeRow_eq (r : Nat) (row : List (Nat × Nat)) (cur : Nat) (ps : List (Nat × Nat × Nat × Nat)) :
+    placeRow r row cur ps = Place.placeRow r row cur ps := by
+  induction row generalizing cur ps with
+  | nil => rfl
+  | cons x rest ih => obtain ⟨rs, cs⟩ := x; simp only [placeRow, Place.placeRow, ih, skip_eq, width_eq]
+private theorem placeRows_eq (r : Nat) (rows : List (List (Nat × Nat))) (ps : List (Nat × Nat × Nat × Nat)) :
+    placeRows r rows ps = Place.placeRows r rows ps := by
+  induction rows generalizing r ps with
+  | nil => rfl
+  | cons x rest ih => simp only [placeRows, Place.placeRows, ih, placeRow_eq]
+private theorem place_eq (rows : List (List (Nat × Nat))) : place rows = Place.place rows := placeRows_eq 0 rows []
+
+private theorem rasterTiled {T : Tbl} (h : C02.Tiles T) : Place.RasterTiled (rasterSort T.cells) T.h T.w :=
+  ⟨rasterSort_sorted _, fun x hx => h.ok x ((rasterSort_perm _).mem_iff.1 hx),
+   fun r c hr hc => ((rasterSort_perm T.cells).countP_eq _).trans (h.one r c hr hc)⟩
+
+private theorem flatten_emitRows {T : Tbl} (h : C02.Tiles T) : (emitRows T).flatten = rasterSort T.cells :=
+  Place.flatten_rows_eq (rasterTiled h)
+
+-- ---------------------------------------------------------------- C04.4 classes and attributes
+
+/-- the class for one side of a cell: none for a normal border -/
+def borderClass (side : String) (b : Border) : Option String :=
+  if b = .normal then none else some ("rg-border-" ++ side ++ "-" ++ b.cls)
+
+/-- C04.4 classes: the kind class first, then one class per non-normal border in the order left, right, top, bottom -/
+theorem cell_classes (c : PCell) :
+    cellClasses c = c.kind.cls ::
+      [borderClass "left" c.bl, borderClass "right" c.br, borderClass "top" c.bt, borderClass "bottom" c.bb].filterMap id :=
+  rfl
+
+example : cellClasses { row := 0, col := 0, rows := 1, cols := 1, path := [], kind := .step, bl := .subRecipe, bb := .none }
+    = ["rg-step", "rg-border-left-sub-recipe", "rg-border-bottom-none"] := by decide
+
+/-- C04.4 span attributes are emitted iff the span differs from 1, colspan before rowspan, after class -/
+theorem cell_attrs_spans (c : PCell) :
+    (cellAttrs c).map (·.1) = ["class"] ++ (if c.cols ≠ 1 then ["colspan"] else []) ++ (if c.rows ≠ 1 then ["rowspan"] else []) ∧
+    (c.cols ≠ 1 → ("colspan", natDigits c.cols) ∈ cellAttrs c) ∧ (c.rows ≠ 1 → ("rowspan", natDigits c.rows) ∈ cellAttrs c) := by
+  by_cases h1 : c.cols = 1 <;> by_cases h2 : c.rows = 1 <;> simp [cellAttrs, h1, h2]
+
+/-- and the class attribute is the classes joined by single spaces -/
+theorem cell_attrs_class (c : PCell) : (cellAttrs c).head? = some ("class", S (" ".intercalate (cellClasses c))) := rfl
+
+example : cellAttrs { row := 0, col := 0, rows := 3, cols := 12, path := [], kind := .step }
+    = [("class", S "rg-step"), ("colspan", S "12"), ("rowspan", S "3")] := by decide +kernel
+
+-- ---------------------------------------------------------------- C04.2 no empty row
+
+/-- every row of every layout starts at least one cell (well-formedness is not even needed) -/
+theorem rows_nonempty_any (t : Tree) : ∀ r ∈ emitRows (layout t), r ≠ [] := by
+  intro row hrow
+  obtain ⟨k, hk, rfl⟩ := List.mem_map.1 hrow
+  obtain ⟨x, hx, hxr⟩ := layoutAt_rowStarts t [] true k (List.mem_range.1 hk)
+  have : x ∈ (rasterSort (layout t).cells).filter (·.row == k) :=
+    List.mem_filter.2 ⟨(rasterSort_perm _).mem_iff.2 hx, by simpa using hxr⟩
+  exact List.ne_nil_of_mem this
+
+set_option linter.unusedVariables false in
+/-- C04.2 every row of the layout of a well-formed tree starts at least one cell (so no empty <tr>) -/
+theorem rows_nonempty (t : Tree) (h : C02.wf t = true) : ∀ r ∈ emitRows (layout t), r ≠ [] :=
+  rows_nonempty_any t
+
+/-- and there is at least one row -/
+theorem rows_exist (t : Tree) (h : C02.wf t = true) : emitRows (layout t) ≠ [] := by
+  have := (C02.layout_nonempty t h).1
+  intro e
+  have := congrArg List.length e
+  simp [emitRows] at this
+  omega
+
+example : (emitRows (layout C02.exTree)).map (·.map fun c => (c.row, c.col)) = [[(0, 0), (0, 1)], [(1, 0)], [(2, 0)]] := by
+  decide
+
+-- ---------------------------------------------------------------- C04.1, C04.3 the HTML table is the abstract table
+
+/-- the emitted rows contain every cell exactly once (a permutation of the cells) -/
+theorem emitRows_perm (T : Tbl) (h : C02.Tiles T) : (emitRows T).flatten.Perm T.cells := by
+  rw [flatten_emitRows h]; exact rasterSort_perm _
+
+/-- C04.1 for every table that tiles its rectangle, placing the emitted rows with the HTML algorithm puts every cell
+    back at its own position with its own extent -/
+theorem place_emit (T : Tbl) (h : C02.Tiles T) :
+    place ((emitRows T).map (·.map fun c => (c.rows, c.cols))) =
+      (emitRows T).flatten.map fun c => (c.row, c.col, c.rows, c.cols) := by
+  rw [flatten_emitRows h, place_eq]
+  exact Place.place_rows_eq (rasterTiled h)
+
+/-- C04.3 hence for every well-formed recipe tree -/
+theorem place_emit_layout (t : Tree) (h : C02.wf t = true) :
+    place ((emitRows (layout t)).map (·.map fun c => (c.rows, c.cols))) =
+      (emitRows (layout t)).flatten.map fun c => (c.row, c.col, c.rows, c.cols) :=
+  place_emit _ (C02.layout_tiles t h)
+
+/-- non-vacuity: the step with two inputs, the second a titled sub recipe (3 rows, the step cell spans all) -/
+example : (emitRows (layout C02.exTree)).map (·.map fun c => (c.rows, c.cols)) = [[(1, 1), (3, 1)], [(1, 1)], [(1, 1)]] := by
+  decide
+example : place ((emitRows (layout C02.exTree)).map (·.map fun c => (c.rows, c.cols))) =
+    [(0, 0, 1, 1), (0, 1, 3, 1), (1, 0, 1, 1), (2, 0, 1, 1)] := by decide
+example := place_emit_layout C02.exTree (by decide)
+example := emitRows_perm _ (C02.layout_tiles C02.exTree (by decide))
+/-- the hypothesis matters: a table with a gap is not reproduced -/
+example : let T : Tbl := ⟨1, 2, [{ row := 0, col := 1, rows := 1, cols := 1, path := [], kind := .step }]⟩
+    place ((emitRows T).map (·.map fun c => (c.rows, c.cols))) ≠
+      (emitRows T).flatten.map fun c => (c.row, c.col, c.rows, c.cols) := by decide
+
 end RG.C04
